@@ -539,6 +539,18 @@ class XInterp(Interp):
     def eval(self, e, env, func):
         if isinstance(e, ast.DictComp):
             return self._dictcomp(e, env, func)
+        if isinstance(e, (ast.List, ast.Tuple)) and any(isinstance(x, ast.Starred) for x in e.elts):
+            # [*a, b]: the starred parts are expanded (the shared interpreter would keep them as one opaque element)
+            out = []
+            for x in e.elts:
+                if isinstance(x, ast.Starred):
+                    seq = self.concrete_iter(self.eval(x.value, env, func))
+                    if seq is None:
+                        raise AnalysisError("%s: starred expression over a non-concrete sequence (%s)" % (func.loc(e), ast.unparse(x.value)[:60]))
+                    out.extend(seq)
+                else:
+                    out.append(self.eval(x, env, func))
+            return out if isinstance(e, ast.List) else tuple(out)
         if isinstance(e, ast.Set):
             out = set()
             for x in e.elts:
